@@ -170,14 +170,22 @@ def execute(sc, pol, mutant=None):
                 ad = None
                 if op['hasargs'] and sc['reuse']:
                     if not shared_ad:
+                        # the caller's dictionary need not list the URIs in the swarm's order ("for
+                        # all argument dictionaries"): extra key first, members in reverse
                         lists = {}
-                        for i in range(1, n + 1):
-                            shared_ad[uri_of(i)] = lists.setdefault(tuple(op['argd'][i - 1]), list(op['argd'][i - 1]))
                         shared_ad['radio://0/1/2M/EXTRA'] = [4242]
+                        for i in range(n, 0, -1):
+                            shared_ad[uri_of(i)] = lists.setdefault(tuple(op['argd'][i - 1]), list(op['argd'][i - 1]))
                     ad = shared_ad
                 elif op['hasargs']:
-                    ad = {uri_of(i): list(op['argd'][i - 1]) for i in range(1, n + 1)}
-                    ad['radio://0/1/2M/EXTRA'] = [4242]
+                    if o % 2:
+                        # key order differs from the swarm's URI order (rotated, extra key first)
+                        ad = {'radio://0/1/2M/EXTRA': [4242]}
+                        for i in list(range(2, n + 1)) + [1][:n]:
+                            ad[uri_of(i)] = list(op['argd'][i - 1])
+                    else:
+                        ad = {uri_of(i): list(op['argd'][i - 1]) for i in range(1, n + 1)}
+                        ad['radio://0/1/2M/EXTRA'] = [4242]
                 try:
                     if k == 'seq':
                         swarm.sequential(make_action(o, op['fail']), ad)
@@ -332,6 +340,11 @@ def _mut(name):
                 for uri, cf in reversed(list(self._cfs.items())):
                     func(*self._process_args_dict(cf, uri, args_dict))
             bind(sw, 'sequential', sequential)
+        elif name == 'seq_by_args_order':
+            def sequential(self, func, args_dict=None):
+                for uri in (u for u in (args_dict or self._cfs) if u in self._cfs):
+                    func(*self._process_args_dict(self._cfs[uri], uri, args_dict))
+            bind(sw, 'sequential', sequential)
         elif name == 'par_raises':
             def parallel(self, func, args_dict=None):
                 self.parallel_safe(func, args_dict)
@@ -365,7 +378,7 @@ def _mut(name):
 
 MUTANTS = ['no_join', 'join_all_but_last', 'late_binding', 'inspect_early', 'no_chain', 'swallow',
            'open_no_close', 'reopen', 'seq_reversed', 'par_raises', 'first_entry_for_all',
-           'shared_reporter', 'args_edited_in_place']
+           'shared_reporter', 'args_edited_in_place', 'seq_by_args_order']
 
 
 # --------------------------------------------------------------------------- scenarios
